@@ -1,5 +1,6 @@
 /- C01 — fee updates: property theorems only (the definitions are regenerated from channel.rs by tools/gen_feeupd.py). -/
 import LdkModel.Generated.FeeUpdate
+import LdkModel.Proofs.HoldingCell
 
 namespace Ldk.C01Fee
 open Ldk.FeeUpdate
@@ -58,5 +59,45 @@ example : Mirrored ⟨10000, 100000⟩ ⟨100000, 10000⟩ := ⟨rfl, rfl⟩
 example : senderReserveOk ⟨10000, 100000⟩ 100000000 = true ∧ receiverReserveOk ⟨100000, 10000⟩ 100000000 = true := by decide
 -- between the two reserves the funder must NOT send: 50 000 sat is above its own 1 % but below the peer's 10 %
 example : senderReserveOk ⟨10000, 100000⟩ 50000000 = false ∧ receiverReserveOk ⟨100000, 10000⟩ 50000000 = false := by decide
+
+/-! ### releasing the holding cell: which check sees what (seeded change C01-r4)
+
+`free_holding_cell_htlcs` releases queued adds (`send_htlc`), queued removals and a queued fee update (`send_update_fee` →
+`can_send_update_fee`) in ONE batch.  The order of these steps is TRANSLATED from the source (`holdingCellReleaseOrder`:
+positions of the statements).  The two checks are blind to each other's pending effect — `send_htlc` sizes an add at the committed
+`feerate_per_kw`, `can_send_update_fee` prices the HTLCs `get_next_commitment_htlcs` returns — so the order is what makes the batch
+affordable for the peer (`validate_update_fee` prices exactly the signed commitment: `receiver_prices_only_the_signed_commitment`). -/
+
+/-- For EVERY content of the holding cell: (1) the HTLC view `can_send_update_fee` prices when the queued fee update is released
+    contains every add released in the same batch (so the view the peer's `validate_update_fee` prices is contained in the
+    sender's); (2) no released add was sized by `send_htlc` while a fee update of ours was already pending; (3) nothing stays
+    swapped out.  Moving the fee-update release before the HTLC loop (C01-r4) breaks (1) and (2). -/
+theorem holding_cell_fee_sees_released_adds (announced cell : List Nat) (fee : Option Nat) :
+    let s := ({ announced := announced, cell := cell, cellFee := fee } : HC).free
+    (∀ v, s.feeView = some v → ∀ a ∈ s.batchAdds, a ∈ v) ∧ (∀ b ∈ s.addSawPendingFee, b = false) ∧
+    s.taken = [] ∧ s.batchAdds = cell ∧ s.pendingFee = fee := by
+  cases fee with
+  | none => simp [HC.free, holdingCellReleaseOrder, HC.step, List.foldl]
+  | some f =>
+    simp only [HC.free, holdingCellReleaseOrder, HC.step, List.foldl, HC.view, List.nil_append]
+    refine ⟨?_, ?_, by trivial, by trivial, by trivial⟩
+    · intro v hv a ha
+      injection hv with hv
+      subst hv
+      simp [ha]
+    · intro b hb
+      simp at hb
+      exact hb.2
+
+-- non-vacuity: two adds and a fee update queued behind one announced HTLC: the fee check prices all three
+example : (({ announced := [7], cell := [3, 5], cellFee := some 2000 } : HC).free).feeView = some [7, 3, 5] ∧
+    (({ announced := [7], cell := [3, 5], cellFee := some 2000 } : HC).free).batchAdds = [3, 5] ∧
+    (({ announced := [7], cell := [3, 5], cellFee := some 2000 } : HC).free).addSawPendingFee = [false, false] := by decide
+-- the order matters: fee update first (the seeded order) prices only the announced HTLC and the adds are sized under a pending fee
+example : (([HoldStep.swapOut, .releaseFee, .releaseHtlcs, .buildCommitment].foldl HC.step
+    ({ announced := [7], cell := [3, 5], cellFee := some 2000 } : HC)).feeView, ([HoldStep.swapOut, .releaseFee, .releaseHtlcs, .buildCommitment].foldl HC.step
+    ({ announced := [7], cell := [3, 5], cellFee := some 2000 } : HC)).addSawPendingFee) = (some [7], [true, true]) := by decide
+-- the KF-C01-2 repair is part of the generated order: adds are released before removals
+example : holdingCellAddsBeforeRemovals = true := by decide
 
 end Ldk.C01Fee
